@@ -1690,4 +1690,66 @@ theorem writeM_spec (an : Bool) (obs t : M) (hc : Coherent t) : KeepsMeta t (wri
       · exact KeepsMeta.refl hc
 
 
+/-! ### select in place -/
+
+theorem shrinksK_sound (kids kids' : Kids) (h : shrinksK kids kids' = true) (bs : Shape) (dv : Option Nat)
+    (hf : ∀ k c, (k, c) ∈ kids → fits bs dv c) (hc : ∀ k c, (k, c) ∈ kids → Coherent c) :
+    ∀ k c, (k, c) ∈ kids' → fits bs dv c ∧ Coherent c := by
+  fun_induction shrinksK kids kids' generalizing bs dv
+  · simp
+  · rename_i kids k s d r ih
+    simp only [Bool.and_eq_true] at h
+    obtain ⟨h1, h2⟩ := h
+    intro k' c hm
+    simp only [List.mem_cons, Prod.mk.injEq] at hm
+    rcases hm with ⟨_, rfl⟩ | hm
+    · cases hk : kget k kids with
+      | none => rw [hk] at h1; simp at h1
+      | some c0 =>
+        rw [hk] at h1
+        cases c0 with
+        | node b0 d0 n0 s0 => simp at h1
+        | leaf s0 d0 =>
+          simp only [Bool.and_eq_true, beq_iff_eq] at h1
+          obtain ⟨rfl, rfl⟩ := h1
+          exact ⟨hf k _ (kget_mem hk), Coherent.leaf _ _⟩
+    · exact ih h2 bs dv hf hc k' c hm
+  · rename_i kids k cbs cdv cns sub' r ih2 ih1
+    simp only [Bool.and_eq_true] at h
+    obtain ⟨h1, h2⟩ := h
+    intro k' c hm
+    simp only [List.mem_cons, Prod.mk.injEq] at hm
+    rcases hm with ⟨_, rfl⟩ | hm
+    · cases hk : kget k kids with
+      | none => rw [hk] at h1; simp at h1
+      | some c0 =>
+        rw [hk] at h1
+        cases c0 with
+        | leaf s0 d0 => simp at h1
+        | node b0 d0 n0 sub0 =>
+          simp only [Bool.and_eq_true, beq_iff_eq] at h1
+          obtain ⟨⟨⟨rfl, rfl⟩, rfl⟩, h4⟩ := h1
+          have hm0 := kget_mem hk
+          have hcc := hc k _ hm0
+          have hfc := hf k _ hm0
+          have hsub := ih2 sub0 h4 cbs cdv hcc.kid_fits hcc.kid_coh
+          exact ⟨⟨hfc.1, hfc.2⟩, Coherent.node _ _ _ _ hcc.names_len (fun k c h => (hsub k c h).1) (fun k c h => (hsub k c h).2)⟩
+    · exact ih1 h2 bs dv hf hc k' c hm
+
+theorem selectInM_spec (obs t : M) (hc : Coherent t) : KeepsMeta t (selectInM obs t).1 := by
+  cases t with
+  | leaf s d => exact KeepsMeta.refl hc
+  | node bs dv ns kids =>
+    cases obs with
+    | leaf s d => exact KeepsMeta.refl hc
+    | node bs' dv' ns' kids' =>
+      simp only [selectInM]
+      split
+      · rename_i h
+        simp only [Bool.and_eq_true] at h
+        have hk := shrinksK_sound kids kids' h.2 bs dv hc.kid_fits hc.kid_coh
+        exact keepsMeta_node (Coherent.node _ _ _ _ hc.names_len (fun k c h => (hk k c h).1) (fun k c h => (hk k c h).2))
+      · exact KeepsMeta.refl hc
+
+
 end TdVerif.C01
